@@ -45,4 +45,10 @@ def table (es : List Export) : Option (List (Option Row)) :=
 
 def visible (t : List (Option Row)) : List Row := (t.takeWhile Option.isSome).filterMap id
 
+/-- the memory index a `<module>_<name>` memory accessor hands to wasmCWriteFileMemoryUse, for an export of memory `exportIndex` -/
+def memoryExportTarget (exportIndex : Nat) : Nat :=
+  match memoryExportArg with
+  | .exportIndex => exportIndex
+  | .const n => n
+
 end W2c2Verif.Model.FuncExports
